@@ -415,7 +415,7 @@ def c15(rng):
     # the refund path is taken with a one-byte non-preimage (the builders' documented convention); it must differ from
     # the real preimage, or the claim branch is the one that runs (a false alarm of this harness in the thorough tier)
     dummy = b'\x00' if pre != b'\x00' else b'\x01'
-    timeout = rng.choice([10, 30, 59])
+    timeout = rng.choice([10, 30, 59, 0, 1])       # 0 is a timeout: the refund is open from the moment the lock is made
     deadline = now + timeout
     builders = [(T.make_htlc_sha256_lock, T.make_htlc_witness, {}), (T.make_htlc_shake256_lock, T.make_htlc_witness, {'hash_size': rng.choice([16, 20, 32])}),
                 (T.make_htlc2_sha256_lock, T.make_htlc2_witness, {}), (T.make_htlc2_shake256_lock, T.make_htlc2_witness, {'hash_size': rng.choice([16, 20])})]
@@ -621,7 +621,11 @@ def c16_instr(rng):
 
 # ---------------------------------------------------------------- C04: merklized scripts
 LEAF_BODIES = ['true', 'false', 'true verify true', 'push d1 push d1 equal', 'true return false',
-               'push d2 push d3 less', 'true true', 'false not']
+               'push d2 push d3 less', 'true true', 'false not',
+               # leaves that RAISE (ValueError / ZeroDivisionError / IndexError / TypeError-free classes) with a truthy item beneath: the leaf's own
+               # verdict is False, and so is the tree's
+               'true push x00 push x%s check_sig x00' % ('11' * 32), 'true push d0 push d0 div_ints', 'true push x0102 push d9 split',
+               'true push x00 push x%s check_sig_verify x00 true' % ('11' * 32)]
 REC = b'c3'      # recording contract (kind 'none'): INVOKE logs its argument
 
 
@@ -916,6 +920,16 @@ def c05(rng):
             out.append(('taproot:scriptspend of a committed script that reads cache key X (own verdict False)',
                         [bs(T.make_taproot_witness_scriptspend(P, Sx)), bs(T.make_taproot_lock(P, Sx, sigflags=flh))],
                         sf, cfg, False, None, None))
+            # the key path evaluates no script: it needs neither call budget nor OP_EVAL
+            c0_ = tsh.Cfg(contracts=((REC, 'none'),), limit=0)
+            wk0_ = bs(T.make_taproot_witness_keyspend(SEEDS[a], sf, S, sigflags=flh))
+            out.append(('taproot:keyspend under callstack_limit 0', [wk0_, bs(T.make_taproot_lock(P, S, sigflags=flh))], sf, c0_, True, None, ''))
+            out.append(('run_script: taproot keyspend with OP_EVAL disallowed', [wk0_, bs(T.make_taproot_lock(P, S, sigflags=flh))], sf,
+                        tsh.Cfg(contracts=((REC, 'none'),), flags={'disallow_OP_EVAL': True}), True, None, ''))
+            burn_ = bytes([F.opcodes_inverse['OP_DEF'][0], 5, 0, 1, 1]) + bytes([F.opcodes_inverse['OP_CALL'][0], 5, F.opcodes_inverse['OP_POP0'][0]])
+            out.append(('taproot:keyspend after the witness spent the whole call budget (limit 1)', [burn_ + wk0_, bs(T.make_taproot_lock(P, S, sigflags=flh))], sf,
+                        tsh.Cfg(contracts=((REC, 'none'),), limit=1), True, None, ''))
+            out.append(('nonnative:keyspend under callstack_limit 0', [wk0_, bs(T.make_nonnative_taproot_lock(P, S, sigflags=flh))], sf, c0_, None, None, None))
             c1 = tsh.Cfg(contracts=((REC, 'none'),), limit=1)
             Sb = Script.from_src('true pop0 true')
             out.append(('nonnative:scriptspend under callstack_limit 1 (native lock: True)',
